@@ -26,8 +26,8 @@ pub fn verif_dir() -> PathBuf {
 
 pub fn quick_runs(prop: &str) -> u64 {
     match prop {
-        "C06" => 2_400,
-        "C09" => 1_600,
+        "C06" => 4_800,
+        "C09" => 4_000,
         "C19" => 4_000,
         "C07" => 12_000,
         _ => 32_000,
@@ -229,6 +229,16 @@ pub fn worker(prop: &str, tier: &str, seed: u64, from: u64, to: u64, out: &Path,
     }
     let list: Vec<u64> = only.unwrap_or_else(|| (from..to).collect());
     for run in list {
+        if std::env::var("VERIF_SELFTEST_UNINIT").is_ok() && run % 16 == 3 {
+            // harness self-test only: a branch on uninitialised memory, which memcheck must report
+            unsafe {
+                let p = libc::malloc(8).cast::<u8>();
+                if std::ptr::read_volatile(p) == 7 {
+                    println!("seven");
+                }
+                libc::free(p.cast());
+            }
+        }
         current.store(run, Ordering::Relaxed);
         beat.fetch_add(1, Ordering::Relaxed);
         let g = generate_and_run(prop, seed, run, thorough);
@@ -385,11 +395,32 @@ struct Spawned {
     to: u64,
 }
 
+/// `valgrind` (memcheck) in front of the plain build: the second memory observer of C07. It sees
+/// what AddressSanitizer cannot: a branch or a system call that depends on uninitialised memory.
+pub fn memcheck_cmd() -> Command {
+    let mut c = Command::new("valgrind");
+    c.arg("-q")
+        .arg("--error-exitcode=9")
+        .arg("--exit-on-first-error=yes")
+        .arg("--undef-value-errors=yes")
+        .arg(std::env::current_exe().unwrap());
+    c
+}
+
+pub fn memcheck_available() -> bool {
+    Command::new("valgrind").arg("--version").stdout(Stdio::null()).stderr(Stdio::null()).status().is_ok_and(|s| s.success())
+}
+
 fn spawn_worker(prop: &str, tier: &str, seed: u64, from: u64, to: u64, tag: &str, only: Option<&[u64]>) -> Spawned {
+    spawn_worker_with(prop, tier, seed, from, to, tag, only, false)
+}
+
+#[allow(clippy::too_many_arguments)]
+fn spawn_worker_with(prop: &str, tier: &str, seed: u64, from: u64, to: u64, tag: &str, only: Option<&[u64]>, memcheck: bool) -> Spawned {
     let exe = std::env::var("VERIF_WORKER_EXE").map_or_else(|_| std::env::current_exe().unwrap(), PathBuf::from);
     let out = scratch_dir().join(format!("{prop}-{}-{tag}.json", std::process::id()));
     let _ = std::fs::remove_file(&out);
-    let mut cmd = Command::new(exe);
+    let mut cmd = if memcheck { memcheck_cmd() } else { Command::new(exe) };
     cmd.arg("worker")
         .arg(prop)
         .arg(tier)
@@ -430,6 +461,66 @@ fn wait_timeout(mut child: std::process::Child, secs: u64) -> Option<std::proces
 }
 
 pub const HANG_SECS: u64 = 30;
+
+/// Collect one worker: its summary, or what is known about its death.
+fn harvest(
+    sp: Spawned,
+    total: &mut WorkerOut,
+    all_violations: &mut Vec<ViolationRec>,
+    crashed: &mut Vec<(u64, String, String)>,
+    harness_error: &mut bool,
+    memcheck: bool,
+) {
+        let progress = sp.out.with_extension("progress");
+        let o = sp.child.wait_with_output().expect("worker wait");
+        let stdout = String::from_utf8_lossy(&o.stdout).to_string();
+        let stderr = String::from_utf8_lossy(&o.stderr).to_string();
+        if o.status.success() {
+            match std::fs::read(&sp.out).ok().and_then(|b| serde_json::from_slice::<WorkerOut>(&b).ok()) {
+                Some(w) => {
+                    total.runs += w.runs;
+                    total.steps += w.steps;
+                    total.fault_free_runs += w.fault_free_runs;
+                    total.fault_free_steps += w.fault_free_steps;
+                    total.faulty_runs += w.faulty_runs;
+                    total.faulty_steps += w.faulty_steps;
+                    total.stats.merge(&w.stats);
+                    total.nontrivial.extend(w.nontrivial);
+                    total.plans.extend(w.plans);
+                    total.violation_count += w.violation_count;
+                    for (k, v) in w.foreign {
+                        *total.foreign.entry(k).or_insert(0) += v;
+                    }
+                    if total.samples.len() < 3 {
+                        total.samples.extend(w.samples.into_iter().take(1));
+                    }
+                    total.traces.extend(w.traces);
+                    all_violations.extend(w.violations);
+                }
+                None => {
+                    eprintln!("harness error: worker {}..{} left no summary", sp.from, sp.to);
+                    *harness_error = true;
+                }
+            }
+        } else {
+            // the worker process died: an abort (sanitizer report, stack overflow, double panic) or a hang
+            let run = stdout
+                .lines()
+                .find_map(|l| l.strip_prefix("HANG run=").and_then(|r| r.parse::<u64>().ok()))
+                .or_else(|| std::fs::read_to_string(&progress).ok().and_then(|s| s.trim().parse().ok()));
+            let class = if stdout.contains("HANG run=") {
+                "hang"
+            } else if memcheck && o.status.code() == Some(9) {
+                "memcheck"
+            } else {
+                "abort"
+            };
+            let tail: String = stderr.lines().rev().take(30).collect::<Vec<_>>().into_iter().rev().collect::<Vec<_>>().join("\n");
+            crashed.push((run.unwrap_or(sp.from), class.to_string(), format!("worker {}..{} exit {:?}\n{tail}", sp.from, sp.to, o.status)));
+        }
+        let _ = std::fs::remove_file(&sp.out);
+        let _ = std::fs::remove_file(&progress);
+}
 
 pub struct BatchResult {
     pub exit: i32,
@@ -508,54 +599,35 @@ pub fn check(prop: &str, tier: &str) -> BatchResult {
     let mut all_violations: Vec<ViolationRec> = Vec::new();
     let mut crashed: Vec<(u64, String, String)> = Vec::new();
     for sp in spawned {
-        let progress = sp.out.with_extension("progress");
-        let o = sp.child.wait_with_output().expect("worker wait");
-        let stdout = String::from_utf8_lossy(&o.stdout).to_string();
-        let stderr = String::from_utf8_lossy(&o.stderr).to_string();
-        if o.status.success() {
-            match std::fs::read(&sp.out).ok().and_then(|b| serde_json::from_slice::<WorkerOut>(&b).ok()) {
-                Some(w) => {
-                    total.runs += w.runs;
-                    total.steps += w.steps;
-                    total.fault_free_runs += w.fault_free_runs;
-                    total.fault_free_steps += w.fault_free_steps;
-                    total.faulty_runs += w.faulty_runs;
-                    total.faulty_steps += w.faulty_steps;
-                    total.stats.merge(&w.stats);
-                    total.nontrivial.extend(w.nontrivial);
-                    total.plans.extend(w.plans);
-                    total.violation_count += w.violation_count;
-                    for (k, v) in w.foreign {
-                        *total.foreign.entry(k).or_insert(0) += v;
-                    }
-                    if total.samples.len() < 3 {
-                        total.samples.extend(w.samples.into_iter().take(1));
-                    }
-                    total.traces.extend(w.traces);
-                    all_violations.extend(w.violations);
-                }
-                None => {
-                    eprintln!("harness error: worker {}..{} left no summary", sp.from, sp.to);
-                    harness_error = true;
-                }
-            }
-        } else {
-            // the worker process died: an abort (sanitizer report, stack overflow, double panic) or a hang
-            let run = stdout
-                .lines()
-                .find_map(|l| l.strip_prefix("HANG run=").and_then(|r| r.parse::<u64>().ok()))
-                .or_else(|| std::fs::read_to_string(&progress).ok().and_then(|s| s.trim().parse().ok()));
-            let class = if stdout.contains("HANG run=") { "hang" } else { "abort" };
-            let tail: String = stderr.lines().rev().take(30).collect::<Vec<_>>().into_iter().rev().collect::<Vec<_>>().join("\n");
-            crashed.push((run.unwrap_or(sp.from), class.to_string(), format!("worker {}..{} exit {:?}\n{tail}", sp.from, sp.to, o.status)));
-        }
-        let _ = std::fs::remove_file(&sp.out);
-        let _ = std::fs::remove_file(&progress);
+        harvest(sp, &mut total, &mut all_violations, &mut crashed, &mut harness_error, false);
     }
+    // C07 only: a second, smaller batch of other runs under valgrind's memcheck (plain build)
+    let mut memcheck_runs = 0_u64;
+    if prop == "C07" && memcheck_available() {
+        let n: u64 = std::env::var("VERIF_MEMCHECK_RUNS").ok().and_then(|s| s.parse().ok()).unwrap_or(if thorough { 9_600 } else { 320 });
+        let per_m = n.div_ceil(workers.max(1));
+        let base = 10_000_000_u64;
+        let mut sp_m = Vec::new();
+        for k in 0..workers {
+            let from = base + k * per_m;
+            let to = (base + (k + 1) * per_m).min(base + n);
+            if from >= to {
+                break;
+            }
+            sp_m.push(spawn_worker_with(prop, &tier, seed, from, to, &format!("m{k}"), None, true));
+        }
+        let before = total.runs;
+        for sp in sp_m {
+            harvest(sp, &mut total, &mut all_violations, &mut crashed, &mut harness_error, true);
+        }
+        memcheck_runs = total.runs - before;
+        total.stats.add("memcheck.runs", memcheck_runs);
+    }
+    let _ = memcheck_runs;
 
     // 3. a dead worker: locate the run by executing candidates one per process
     for (hint, class, detail) in &crashed {
-        let found = locate_fatal_run(prop, &tier, seed, *hint, per);
+        let found = locate_fatal_run(prop, &tier, seed, *hint, per, class == "memcheck");
         match found {
             Some((run, plan_cfg)) => {
                 let v = Violation {
@@ -674,14 +746,15 @@ pub fn check(prop: &str, tier: &str) -> BatchResult {
 
 /// Find the run that kills its process: try the hinted run first, then its neighbours,
 /// each in its own journalling child process. Returns the run and its journal.
-fn locate_fatal_run(prop: &str, tier: &str, seed: u64, hint: u64, span: u64) -> Option<(u64, (Cfg, Vec<Step>))> {
+fn locate_fatal_run(prop: &str, tier: &str, seed: u64, hint: u64, span: u64, memcheck: bool) -> Option<(u64, (Cfg, Vec<Step>))> {
     let exe = std::env::var("VERIF_WORKER_EXE").map_or_else(|_| std::env::current_exe().unwrap(), PathBuf::from);
     let lo = hint.saturating_sub(2);
     let cands: Vec<u64> = std::iter::once(hint).chain(lo..hint).chain(hint + 1..hint + span.min(64)).collect();
     for run in cands {
         let journal = scratch_dir().join(format!("{prop}-{}-journal-{run}.jsonl", std::process::id()));
         let _ = std::fs::remove_file(&journal);
-        let child = Command::new(&exe)
+        let mut jc = if memcheck { memcheck_cmd() } else { Command::new(&exe) };
+        let child = jc
             .arg("journal")
             .arg(prop)
             .arg(tier)
@@ -812,7 +885,8 @@ pub fn replay_file(path: &Path) -> i32 {
     if r.expect.clause.starts_with("process.") {
         // the plan kills its process: run it in a child
         let exe = std::env::var("VERIF_WORKER_EXE").map_or_else(|_| std::env::current_exe().unwrap(), PathBuf::from);
-        let child = Command::new(exe)
+        let mut ec = if r.expect.clause == "process.memcheck" { memcheck_cmd() } else { Command::new(exe) };
+        let child = ec
             .arg("exec-plan")
             .arg(path)
             .env("ASAN_OPTIONS", "detect_leaks=0:abort_on_error=1:allocator_may_return_null=1")
